@@ -57,6 +57,19 @@ def main(argv=None):
         print("harness error: cannot import check module / repository code - exit 2")
         return 2
 
+    try:
+        # both matchers live in one process in real use (the repository's own test suite does this): constructing and using the
+        # Markdown matcher first must not change anything the classic pipeline does afterwards
+        from gherkin.token_matcher_markdown import GherkinInMarkdownTokenMatcher as _MD
+        from gherkin.token import Token as _T
+        from gherkin.gherkin_line import GherkinLine as _L
+        for _d in ("en", "fr"):
+            _m = _MD(_d)
+            for _line in ("# Feature: f\n", "* Given x\n", "  | a |\n", "````md\n", "`@t`\n"):
+                for _meth in ("match_FeatureLine", "match_StepLine", "match_TableRow", "match_DocStringSeparator", "match_TagLine"):
+                    getattr(_m, _meth)(_T(_L(_line, 1), {"line": 1}))
+    except Exception:
+        pass
     if replay_path:
         try:
             msg = replay_file(mod, replay_path)
